@@ -184,7 +184,7 @@ class Req:
 
 
 class Case:
-    def __init__(self, group, reqs, rt=LONG_RT, ct=1000, ka=1, th=1, ident="cur", hold=None, rcvbuf=0, cap=0, wd=120000):
+    def __init__(self, group, reqs, rt=LONG_RT, ct=1000, ka=1, th=1, ident="cur", hold=None, rcvbuf=0, cap=0, wd=45000):
         self.group, self.reqs = group, reqs
         self.rt, self.ct, self.ka, self.th, self.ident, self.rcvbuf, self.cap, self.wd = rt, ct, ka, th, ident, rcvbuf, cap, wd
         self.hold = hold if hold is not None else (rt + 8000 if rt < 5000 else 4000)
